@@ -403,3 +403,26 @@ Definition w_glob_plain : list act :=
   acts_of w_glob_pcs (follow (captured (fun _ => false) w_glob_before w_glob_after) 5 0).
 Definition w_glob_linereq : list act :=
   acts_of w_glob_pcs (follow (captured (fun _ => true) w_glob_before w_glob_after) 5 0).
+
+(* ------------------------------------------------------------------ *)
+(** * Two sets of closures: the variants of the channel operations
+
+    The theorems above compare the two loops of [runCfg] on one and the same machine [mstep]. The
+    implementation does not quite do that: the Debugger always executes through
+    [ExecuteWithContext], which sets [interp.cancelChan] before the closures are generated, so the
+    debugged program runs the *cancellable* implementations of send, receive, two-value receive
+    (and range over a channel and select always poll the done channel), whereas plain [Eval] /
+    [Execute] run the blocking ones. (Function literals, generated at compile time, and everything
+    that a line request makes SetBreakpoints generate early, get the blocking ones in both cases.)
+    So there are two step functions; the behaviour clause of C19 holds for the pair under the side
+    condition that they agree as long as the context is not cancelled, which is what the
+    correspondence checks on every generated session (the operations of an instrumented
+    ExecuteWithContext run against those of an instrumented Execute run, and the outputs). *)
+Definition variants_agree {St} (plain debugged : St -> option (St * act)) : Prop :=
+  forall ps, debugged ps = plain ps.
+
+(** SetBreakpoints calls getExec, hence [n.gen(n)], on every positioned node whose action is not
+    nop. The selector of an imported type in a parameter list ("wg *sync.WaitGroup") is such a node
+    and has no generator: calling the nil function panics in the host. *)
+Definition pregen (hasgen : node -> bool) (candidates : list node) : option unit :=
+  if forallb hasgen candidates then Some tt else None.
